@@ -174,6 +174,11 @@ def scan_function(prog: Prog, fn: Fn) -> Iterator[Site]:
                     defs = [node.value for kind, node in prog.local_defs(fn, base.id) if kind in ("assign",) and node.value is not None]
                     if defs and all(isinstance(d, ast.Call) and isinstance(d.func, ast.Attribute) and d.func.attr in NONEMPTY_CALLS for d in defs) and idx[0] == "const" and idx[1] in (0, -1):
                         continue
+                if isinstance(base, ast.Call) and isinstance(base.func, ast.Attribute) and base.func.attr in ("split", "rsplit") and idx[0] == "const" and idx[1] in (1, -2) and base.args:
+                    # s.split(sep, ...)[1] exists when sep occurs in s
+                    sep = prog.try_fold(base.args[0], fn.mod, fn)
+                    if isinstance(sep, str) and any(p_ and t_ in (f"{sep!r} in {u(base.func.value)}",) for t_, p_ in fl.facts_for(n)):
+                        continue
                 if isinstance(base, ast.Call) and isinstance(base.func, ast.Attribute) and base.func.attr in NONEMPTY_CALLS and idx[0] == "const" and idx[1] in (0, -1):
                     continue
                 if isinstance(base, ast.Call) and isinstance(base.func, ast.Attribute) and base.func.attr in ("groups",):
